@@ -25,6 +25,13 @@ def write_scenarios(path, hists, rnd, opts_choices=(0, 1, 2, 4, 6, 3)):
     return cfgs
 
 
+def _report(txt):
+    """the part of a dead process's stderr that names the error: from the first sanitizer line on (a stack-overflow report is long), plus the tail"""
+    m = re.search(r'ERROR: AddressSanitizer|runtime error:|ERROR: LeakSanitizer', txt)
+    i = max(0, txt.rfind('\n', 0, m.start())) if m else 0
+    return txt[i:i + 4000] + ('\n...\n' + txt[-4000:] if len(txt) > i + 4000 else '')
+
+
 def run_harness(binary, scen, out, n, timeout=900, env=None):
     """Runs all n scenarios, restarting after every crash; returns (executions, stderr snippets per crashed index)."""
     execs, crashes = [], {}
@@ -51,10 +58,10 @@ def run_harness(binary, scen, out, n, timeout=900, env=None):
         if cur is not None and cur['end'] is None:
             # the process died inside this scenario (sanitizer abort, signal, timeout)
             cur['end'] = {'e': 'Crash', 'what': 'process died rc=%d' % rc}
-            crashes[cur['index']] = txt[-6000:]
+            crashes[cur['index']] = _report(txt)
             done = cur['index'] + 1
         elif cur is not None and cur['end']['e'] == 'Crash':
-            crashes[cur['index']] = txt[-6000:]
+            crashes[cur['index']] = _report(txt)
         if rc == 0 and (cur is None or cur['end']['e'] == 'End') and done >= n:
             break
         if done <= skip:
@@ -70,16 +77,11 @@ def run_harness(binary, scen, out, n, timeout=900, env=None):
 def precondition_class(ops):
     """coarse class of a history, part of finding keys"""
     kinds = [o[0] for o in ops]
-    cls = []
-    if 13 not in kinds and not any(o[0] == 14 and o[1] == 0 for o in ops):
-        cls.append('never-processed')
     if any(o[0] == 14 and o[1] == 0 for o in ops):
-        cls.append('txn-off')
-    if 2 in kinds:
-        cls.append('pins')
-    if 12 in kinds:
-        cls.append('hyperedge')
-    return '+'.join(cls) or 'plain'
+        return 'txn-off'
+    if 13 not in kinds:
+        return 'never-processed'
+    return 'txn-on'
 
 
 def san_kind(txt):
@@ -87,7 +89,7 @@ def san_kind(txt):
     if m:
         kind = 'asan:' + m.group(1)
     elif 'runtime error:' in txt:
-        kind = 'ubsan:' + re.sub(r'[^a-z ]', '', re.search(r'runtime error: ([^\n]{0,60})', txt).group(1).lower()).strip().replace(' ', '-')[:40]
+        kind = 'ubsan:' + re.sub(r'[^a-z ]', '', re.sub(r'0x[0-9a-f]+', '', re.search(r'runtime error: ([^\n]{0,80})', txt).group(1).lower())).strip().replace('  ', ' ').replace(' ', '-')[:40]
     elif 'LeakSanitizer' in txt:
         kind = 'lsan:leak'
     else:
